@@ -85,12 +85,12 @@ class ProcResult(object):
         self.facts = facts
 
 
-def run_proc(shape, call, check_equiv=True, shape_pred=None, max_paths=64, services=True, post=None):
+def run_proc(shape, call, check_equiv=True, shape_pred=None, max_paths=64, services=True, post=None, world_cls=None, interp_kwargs=None):
     """call(w, it, formula) -> result node (or any value handed to `post`).
     post(w, formula, value, facts) -> ProcResult or None to continue with the default checks."""
     def one(ex):
-        it = Interp(ex)
-        w = World().attach(it)
+        it = Interp(ex, **(interp_kwargs or {}))
+        w = (world_cls or World)().attach(it)
         if services:
             setup_env(w)
         f = build_shape(w, shape.t)
